@@ -274,9 +274,9 @@ void finalSolve(SoPlex& sp, const char* k)
 // rational-mode exclusions shared with T1; returns true if the input must be skipped
 bool excludedRational(const std::string& text, bool parsedAsMps)
 {
-   if(vfz::known("rat-exponent-overflow") && vfz::hasHugeExponent(text))
+   if(vfz::known("rat-exponent-unbounded") && vfz::hasHugeExponent(text))
    {
-      vfz::count("excluded_known.rat-exponent-overflow");
+      vfz::count("excluded_known.rat-exponent-unbounded");
       return true;
    }
    if(vfz::known("rat-denominator-unchecked") && vfz::hasBadDenominator(text))
@@ -335,6 +335,7 @@ void readLP(int sel, std::string text, bool extMps, bool gz)
    bool dup = false;
    try
    {
+      vfz::LeakScope ls(noNames);
       bool ok = noNames ? sp.readFile(path.c_str()) : sp.readFile(path.c_str(), &rn, &cn, &iv);
       outcome = ok ? 1 : 0;
    }
@@ -391,6 +392,7 @@ void readBasis(int sel, std::string text, bool gz)
    int outcome = 0;
    try
    {
+      vfz::LeakScope ls(!named);
       bool ok = named ? sp.readBasisFile(path.c_str(), &rn, &cn) : sp.readBasisFile(path.c_str());
       outcome = ok ? 1 : 0;
    }
